@@ -242,3 +242,21 @@ def replay_ngd(model, params, clause, info):
     ok = all(torch.allclose(p.detach(), o - 0.25 * 17 * p.grad) if p.grad is not None else torch.equal(p.detach(), o) for p, o in zip(ps, old))
     return {"violates": not ok, "detail": f"NGD.step on {k} parameter(s): {ok}",
             "entry": {"module": "contracts.C15_objectives", "function": "replay_ngd", "args": [model, list(params), clause, info]}}
+
+
+def replay_c15_bounded(model, params, clause, info):
+    from bounded import C15_bounds
+    r = C15_bounds.run("quick", 0)
+    bad = r["violations"]
+    return {"violates": bool(bad), "detail": "; ".join(f"{v['key']}: {v['detail']}" for v in bad[:5])[:700] or "ELBO / natural-gradient checks pass on the real code",
+            "entry": {"module": "contracts.C15_objectives", "function": "replay_c15_bounded", "args": [model, list(params), clause, info]}}
+
+
+@case("C15", clause="natural_gradient_backward", name="phi_for_cholesky", expand=lambda ix: [(0,), (1,), (2,)], replay=lambda *a: replay_c15_bounded(*a),
+      functions=["gpytorch.variational.natural_variational_distribution._phi_for_cholesky_"])
+def phi_for_cholesky(c, br):
+    """the natural-gradient step of the property goes through the custom backward of the natural parameterisation; its Cholesky-derivative helper must be
+    Phi(A) = tril(A) with the diagonal halved for EVERY batch element (the C19 contract, shared): a helper that is right for un-batched input only breaks
+    'one step reaches the optimum' for batched variational distributions"""
+    from contracts import C19_backward as c19
+    return c19.phi_for_cholesky(c, br)
